@@ -23,6 +23,9 @@ below a Weibull's location).  Every result is judged by the property's clauses a
 entries one at a time through a fresh object), the caller's arrays are compared with a pristine copy after every step, and after every
 rejected step all coherence clauses are re-evaluated on all objects.  A history runs in a worker thread with a time limit: a query
 that does not return is a failing clause.
+Audit round 8: stream `long` (c15_long.py) = the same clauses on ONE object queried with arrays of 999 ... 131073 probabilities / values
+and asked for as many random numbers (size-conditioned code paths): special entries at the first / last elements and at / across
+multiples of 1000 / 1024 / 4096 / 10000 / 65536, every element judged, the elements at the special positions tied to the model.
 """
 import math
 
@@ -48,7 +51,12 @@ RULE = ("seeded parameters: loc in [-50,50], scale log-uniform [1e-2,1e2], Weibu
         "with any array, rnd, and rejected calls (invalid size or seed, non-numeric argument, unknown fit method, invalid "
         "constructor arguments, invalid scale set and restored, values below a Weibull's location); every result judged against "
         "the values as first passed, the caller's arrays compared with a pristine copy after every step, all coherence clauses "
-        "on all objects after every rejected step; each history in a worker thread with a time limit; corpus/C15 cases first")
+        "on all objects after every rejected step; each history in a worker thread with a time limit; corpus/C15 cases first; "
+        "long: one object, arrays of n probabilities / values and rnd(size=n | (n/2,2) | (2,n/2) | (n,1)), n in {999,1000,1001,1023,1024,1025,"
+        "4095,4096,4097,9999,10000,10001,65535,65536,65537,70001,131073} (quick: per family one <= 1025, one <= 10001, one >= 65535), entries 0 / 1 / out of "
+        "range / +-1 ulp / 1e-300 / 1-2^-53 / ties and the ends of the support / median / far tails / ties at the first and last elements "
+        "and at, next to and across multiples of 1000 / 1024 / 4096 / 10000 / 65536; random or sorted; ndarray / list / tuple / view / "
+        "read-only / 2-d")
 TAIL_K = (20.0, 40.0, 200.0, 700.0, 709.0, 710.0, 745.0, 750.0, 1e3, 1e4, 1e6)
 
 
@@ -817,7 +825,7 @@ def run(chk):
     cases = [("wb", (0.0, 1.0, 2.0)), ("gm", (1.0, 2.0)), ("gu", (0.0, 1.0))]
     corpus = core.load_corpus("C15")
     for c in corpus:
-        if c.get("check") in ("param-history", "query-history"):
+        if c.get("check") in ("param-history", "query-history", "long"):
             continue
         key = (c["dist"], tuple(float(v) for v in c["params"]))
         if key not in cases:
@@ -1068,10 +1076,22 @@ def run(chk):
                      % (i, st[0], " + ".join(names[o["dist"]] for o in h["objects"]), orc), h, exp_, obs, step=i)
         if any(b[2].startswith("every query of the history returns") for b in bad):
             break                        # a query hangs: later histories in this process would only wait as well
+    # ---- audit round 8: LONG arrays of probabilities / values, long rnd draws (c15_long.py) ------------------------------------
+    from . import c15_long
+    c15_long.run_long(chk, drv, corpus)
 
 
 def replay(rp):
     inp = rp["input"]
+    if inp.get("check") == "long":
+        from . import c15_long
+        res = c15_long.eval_long({k: v for k, v in inp.items() if k not in ("index", "arg")})
+        for o, e, g in res:
+            print("FAILS:", o)
+            print("   expected:", e)
+            print("   observed:", g)
+        print("replay: %d failing clause(s)" % len(res))
+        return 1 if res else 0
     if inp.get("check") == "query-history":
         res = run_query_history(inp)
         for i, st, o, e, g in res:
